@@ -173,7 +173,6 @@ func genRequestOf(t *rapid.T, m *model, op, label string) (step, bool) {
 		s := step{Op: op, Topic: topic, Parts: genParts(t, m, topic, label), Par: rapid.SampledFrom([]int{1, 1, 2, 3}).Draw(t, label+"par")}
 		if op == "produce" {
 			s.Acks = rapid.SampledFrom([]int16{1, -1}).Draw(t, label+"acks")
-			s.Raw = rapid.IntRange(0, 2).Draw(t, label+"raw") == 0
 		}
 		return s, true
 	case "listoffsets":
